@@ -5,6 +5,7 @@ import (
 	"go/token"
 	"go/types"
 	"math/big"
+	"os"
 	"regexp"
 	"strings"
 
@@ -61,6 +62,10 @@ var builtinPure = []string{
 
 func (g *Gen) call(in ssa.Instruction, c *ssa.CallCommon, rt types.Type) Val {
 	v := g.callInner(in, c, rt)
+	if os.Getenv("GOVC_COVER") == "all" {
+		n := g.calleeName(c)
+		g.cover(fmt.Sprintf("after:%s#%d", n, g.callCount[n]))
+	}
 	if g.fc != nil {
 		name := g.calleeName(c)
 		site := fmt.Sprintf("%s#%d", name, g.callCount[name])
@@ -809,6 +814,48 @@ func (g *Gen) applyContract(fc *FuncContract, pc *PkgContracts, pkg *types.Packa
 			results = []Val{res}
 		}
 	}
+	// newly allocated result objects: the reference is fresh and non-nil, and every field cell of the object
+	// (ghost fields included) is a new unconstrained value
+	for _, a := range fc.Allocates {
+		var rv Val
+		switch {
+		case a == "result" && len(results) == 1:
+			rv = results[0]
+		case strings.HasPrefix(a, "result."):
+			var n int
+			fmt.Sscanf(a, "result.%d", &n)
+			if n < len(results) {
+				rv = results[n]
+			}
+		}
+		pt, ok := rv.T.Underlying().(*types.Pointer)
+		if rv.K != kScalar || !ok {
+			panic(contractErr("allocates %s: not a pointer result of %s", a, name))
+		}
+		g.assume(g.curReach, "(> "+rv.S+" "+pre_alloc(g, pre)+")")
+		g.heap.m["$alloc"] = g.define("alloc", "Int", ite("(> "+rv.S+" "+g.allocTerm(g.heap)+")", rv.S, g.allocTerm(g.heap)))
+		p := g.ptrTo(rv.S, pt.Elem())
+		cell := func(pp Ptr) {
+			for _, l := range g.leaves(pp.T) {
+				hn := pp.Prefix + l.Path
+				hs := g.heapSort(l.Sort, len(pp.Idx))
+				g.noteLeaf(hn, l, len(pp.Idx))
+				cur := g.heapGet(g.heap, hn, hs)
+				fv := g.fresh("newcell", l.Sort)
+				g.heapSet(g.heap, hn, hs, storeN(cur, pp.Idx, fv))
+			}
+		}
+		cell(p)
+		if callerPc := pc; callerPc != nil {
+			tn := g.typeName(pt.Elem())
+			for _, gf := range callerPc.GhostFields {
+				if gf.Struct == tn || lastPkgElem(gf.Struct) == tn {
+					gt := g.resolveType(&Env{pkg: pkg, pc: pc}, gf.Type)
+					cell(Ptr{Prefix: p.Prefix + ".ghost:" + gf.Name, Idx: p.Idx, T: gt})
+				}
+			}
+		}
+	}
 	post := &Env{vars: env.vars, heap: g.heap, old: pre, pkg: pkg, pc: pc, results: results}
 	for _, c := range fc.Ensures {
 		if c.Local || c.Ret != 0 {
@@ -890,6 +937,8 @@ func (g *Gen) applyCallSite(cs *CallSiteSpec, site string, c *ssa.CallCommon, rt
 	}
 	return res
 }
+
+func pre_alloc(g *Gen, pre *Heap) string { return g.allocTerm(pre) }
 
 func (g *Gen) frameCheckHeap(hn string, ml modLoc, pos token.Pos, callee string) {
 	if g.fc == nil {
